@@ -307,6 +307,25 @@ async def workflow_sites(ctx, rng, d, labels):
         ctx.count("clean", d, labels)
         if set(got) != expected:
             ctx.vio("clean", d, labels, got, expected)
+
+        # remembered_under: the same selection for detached nodes (what the watcher keeps up to date
+        # for nodes that may return).  Last, because it detaches everything the plan declared.
+        if hasattr(wf, "remembered_paths_under"):
+            async with wf.db:
+                plan.detach()
+                for during_build in (False, True):
+                    got = set(wf.remembered_paths_under(d, during_build=during_build))
+                    relevant = set(statics) | set(extra_matches)
+                    if not during_build:
+                        relevant |= set(built)
+                    expected = {l for l in relevant if l.startswith(d)}
+                    ctx.count("relevant_under", d, labels)
+                    if got != expected:
+                        ctx.vio("relevant_under", d, labels, got, expected,
+                                extra=f"detached nodes, during_build={during_build}")
+                    left = set(wf.relevant_paths_under(d, during_build=during_build))
+                    if left:
+                        ctx.vio("relevant_under", d, labels, left, set(), extra="attached selection after detaching")
     finally:
         await close_workflow(wf, stack)
 
